@@ -5,18 +5,35 @@ sys.path.insert(0, HERE)
 
 
 def setup():
-    """Build every Lean target named in MANIFEST.json (driver executables and property modules)."""
+    """Build every Lean target named in MANIFEST.json (driver executables and property modules).
+    A property whose Lean files do not build must not take the other checks down with it: on failure the
+    targets are built property by property, failures are printed, and setup still succeeds - the failing
+    property's own check then reports the broken obligation."""
     man = json.load(open(os.path.join(VERIF, "MANIFEST.json")))
     props = [c["property_id"] for c in man["checks"]]
+    import runner
+    for p in props:
+        try:
+            runner.write_audit(p, runner.prop_theorems(p))
+        except Exception as e:
+            print("setup: cannot list theorems of %s: %r" % (p, e))
     targets = []
     for p in props:
         targets += ["LitexProps." + p, "drv_" + p.lower()]
-    import runner
-    for p in props:
-        runner.write_audit(p, runner.prop_theorems(p))
     rc, out = runner.lake_build(targets)
-    print(out[-3000:])
-    return rc
+    print(out[-2000:])
+    if rc == 0:
+        return 0
+    print("setup: combined build failed; building property by property")
+    failed = []
+    for p in props:
+        rc, out = runner.lake_build(["LitexProps." + p, "drv_" + p.lower()])
+        if rc != 0:
+            failed.append(p)
+            print("setup: %s does not build:\n%s" % (p, out[-1500:]))
+    print("setup: built %d of %d properties%s" % (len(props) - len(failed), len(props),
+                                                   ("; NOT built: " + " ".join(failed)) if failed else ""))
+    return 0 if len(failed) < len(props) else 1
 
 
 def main():
